@@ -848,6 +848,16 @@ pub fn check(case: &Case, idx: u64, acc: &mut Acc) {
                 Ok(Some(Ok(()))) => {}
             }
             acc.outcome(&s.len());
+            // long names also as the name of a stored named calendar
+            if s.len() > 20 {
+                acc.eval();
+                let doc = NamedCal::try_new("tgt").unwrap().to_json().unwrap().replacen("\"tgt\"", &serde_json::to_string(s).unwrap(), 1);
+                match guarded(|| load("NamedCal", false, &doc).ok().map(|o| invariants(&o))) {
+                    Err(msg) => acc.violate(&format!("json/NamedCal/long-name/panic/{}", panic_class(&msg)), idx, cj(), json!("Ok or Err"), json!(msg)),
+                    Ok(Some(Err(e))) => acc.violate("json/NamedCal/long-name/invariant", idx, cj(), json!("behaves as its name"), json!(e)),
+                    _ => {}
+                }
+            }
         }
         Case::Dates { bmask, smask, hols } => {
             let z0 = days_from_civil(2024, 2, 26);
@@ -1132,6 +1142,18 @@ pub fn cases(tier: Tier) -> Vec<Case> {
         }
         frontier = next;
     }
+    // long names: one character of 2, 3 or 4 bytes (or one whose lower case is longer than itself) after 0 .. 130
+    // ASCII letters, alone and as a section of a composite name
+    for ch in ["é", "€", "\u{1D11E}", "\u{0130}"] {
+        for l in 0..=130usize {
+            let sec = format!("{}{}bcd", "a".repeat(l), ch);
+            out.push(Case::NamedCtor { s: sec.clone() });
+            if l % 3 == 0 || (40..=70).contains(&l) {
+                out.push(Case::NamedCtor { s: format!("tgt,{}|fed", sec) });
+                out.push(Case::NamedCtor { s: format!("ldn|{},tgt", sec.to_uppercase()) });
+            }
+        }
+    }
     // dates
     let mut bmasks: Vec<u8> = vec![0, 0b1100000, 0b0110000, 0b1000001];
     for i in 0..7 {
@@ -1206,7 +1228,7 @@ fn evidence_meta(ctx: &Ctx, ncases: usize) -> Meta {
          gradient length 0-4 x Hessian length 0-10, and on lists of 8 .. 257 names (with and without a repeated name) x gradient lengths {0, 1, n-1, n, n+1} x Hessian lengths {0, n, n^2-1, n^2, n^2+1, (n-1)^2, n(n+1)}; Ccy::try_new on every string of length 0-4 over {a,B,1,e-acute,euro, \
          space} (+ case-folding oddities), FXPair/FXRate::try_new on every pair with the strings of length <= 3; \
          FXRates::try_new on degenerate quote lists (empty, zero/negative/NaN/inf/subnormal/MAX rates, mixed Dual/Dual2 \
-         quotes, duplicate and cyclic pairs, 13 currencies) x bases x orders; NamedCal::try_new on every token string of \
+         quotes, duplicate and cyclic pairs, 13 currencies) x bases x orders; NamedCal::try_new on long names with one multi-byte character at every byte offset 0 .. 130 (alone, inside composite names, and as the name of a stored named calendar) and on every token string of \
          length <= 4 (5) over {tgt, ldn, zzz, ',', '|', ' ', e-acute, U+0130, U+212A} (the last two change UTF-8 length when lower-cased). Date arithmetic: add_bus_days, lag, add_days (5 \
          modifiers), roll for EVERY i8, both flags, 9 start dates (business and non-business) on 18 week masks (every \
          single-day mask, every six-day mask, Sat-Sun, Fri-Sat, Sun+Mon, none) x {no, Sat-Sun, Sun, Mon} settlement \
